@@ -41,10 +41,9 @@ CHECKS = {
  "C09": C("proof",
    "Partial proof. Theorems coq/props/C09.v over the model in which every u64 overflow, index error, unwrap and loop of the crate's proof code is an explicit Panic/OutOfFuel outcome: for numeric fields below 2^40 and node lists of any length, verification of every proof without an upgrade section returns a value or an error against every tree and store (the root index reached stays below 2^42, so the store offset cannot overflow); verification with an upgrade section never panics when the byte lengths carried by its node lists cannot overflow u64 in sum (lists up to 2^20 nodes); creating a block proof returns for every index and node count. NOT proved: termination (fuel) of the upgrade loops for arbitrary hostile lists (only under the size conditions of NoPanic.v), and proof creation for hash/seek/upgrade requests. Those, and the Rust-only panics the model cannot contain (allocation, slices inside dependencies), are decided on every run by boundary request tuples on six core shapes, structurally arbitrary proofs and the C04 alteration set under catch_unwind + watchdog in a build with overflow checks, with the model required to agree.",
    "DESIGN.md 6.9", GLUE, "Coq proof (totality of the verifier, explicit panic sites) + hostile-input enumeration with correspondence"),
- "C10": C("fault_enumeration",
-   "One injected I/O error at every storage operation (reads, length queries, writes, deletes, truncates; during open too) of every "
-   "history: the call must answer an error, reopening must show before-or-after with everything earlier intact (also on the model).",
-   "DESIGN.md 6.10", GLUE, "fault enumeration"),
+ "C10": C("proof",
+   "Partial proof. Theorems coq/props/C10.v: a flush in which storage operation k fails reports the I/O error, leaves core and events untouched and leaves on disk exactly the first k operations \u2014 the cut of the fault-free journal at k; for every operation of the core every prefix of what it writes is a well-defined disk from which the rest leads to the final disk. So every state a failing write/delete/truncate can leave is one of the crash states whose recovery C02, C07 and C08 treat. NOT expressible in the model: that the crate propagates every Result with `?` rather than dropping or unwrapping it, and failing reads / length queries. These are decided on every run by fault enumeration: one I/O error injected at EVERY storage operation (reads and length queries included, during open too) of every generated history; the call must answer an error (never success, a panic or a hang) and reopening must show the before-or-after state with everything earlier intact, also compared with the model's recovery.",
+   "DESIGN.md 6.10", GLUE, "Coq proof (fault state = journal cut) + exhaustive fault enumeration"),
  "C11": C("proof",
    "Machine-checked theorems (coq/props/C11.v: codec_law for all eight wire types — encode succeeds, writes exactly "
    "the announced size, decode(encode x ++ r) = (x, r), every strict prefix decodes to an error, never a panic) over "
